@@ -41,20 +41,20 @@ const m = time.Minute
 var table = map[string]cfg{
 	"C01": {quick: 3000, thorough: 40000, shards: 16, quickTO: 4 * m, thorTO: 25 * m, fuzz: []string{"FuzzC01"}, fuzzTime: 90 * time.Second},
 	"C02": {quick: 4000, thorough: 80000, shards: 16, quickTO: 4 * m, thorTO: 25 * m},
-	"C03": {quick: 2500, thorough: 12000, shards: 16, quickTO: 4 * m, thorTO: 25 * m},
+	"C03": {quick: 2500, thorough: 9000, shards: 16, quickTO: 4 * m, thorTO: 25 * m},
 	"C04": {quick: 4000, thorough: 60000, shards: 16, quickTO: 4 * m, thorTO: 30 * m},
 	"C05": {quick: 3000, thorough: 45000, shards: 16, quickTO: 4 * m, thorTO: 30 * m},
 	"C06": {quick: 2000, thorough: 8000, shards: 16, quickTO: 5 * m, thorTO: 30 * m, race: true},
-	"C07": {quick: 2500, thorough: 50000, shards: 16, quickTO: 4 * m, thorTO: 25 * m},
+	"C07": {quick: 2500, thorough: 18000, shards: 16, quickTO: 4 * m, thorTO: 25 * m},
 	"C08": {quick: 6000, thorough: 20000, shards: 16, quickTO: 5 * m, thorTO: 40 * m, fuzz: []string{"FuzzC08DSL", "FuzzC08JSON", "FuzzC08Mod", "FuzzC08Module"}, fuzzTime: 75 * time.Second},
-	"C09": {quick: 4000, thorough: 40000, shards: 16, quickTO: 4 * m, thorTO: 25 * m},
+	"C09": {quick: 4000, thorough: 25000, shards: 16, quickTO: 4 * m, thorTO: 25 * m},
 	"C10": {quick: 4000, thorough: 80000, shards: 16, quickTO: 4 * m, thorTO: 25 * m},
 	"C11": {quick: 4000, thorough: 40000, shards: 16, quickTO: 4 * m, thorTO: 25 * m},
-	"C12": {quick: 1200, thorough: 4000, shards: 16, quickTO: 4 * m, thorTO: 25 * m},
-	"C13": {quick: 60, thorough: 150, shards: 16, quickTO: 6 * m, thorTO: 40 * m, race: true},
+	"C12": {quick: 1200, thorough: 2500, shards: 16, quickTO: 4 * m, thorTO: 25 * m},
+	"C13": {quick: 60, thorough: 100, shards: 16, quickTO: 6 * m, thorTO: 40 * m, race: true},
 	"C14": {quick: 3000, thorough: 30000, shards: 16, quickTO: 4 * m, thorTO: 25 * m},
 	"C15": {quick: 2500, thorough: 100000, shards: 16, quickTO: 4 * m, thorTO: 30 * m},
-	"C16": {quick: 4000, thorough: 12000, shards: 16, quickTO: 4 * m, thorTO: 30 * m, fuzz: []string{"FuzzC16"}, fuzzTime: 90 * time.Second},
+	"C16": {quick: 4000, thorough: 9000, shards: 16, quickTO: 4 * m, thorTO: 30 * m, fuzz: []string{"FuzzC16"}, fuzzTime: 90 * time.Second},
 	"C17": {quick: 2000, thorough: 30000, shards: 16, quickTO: 4 * m, thorTO: 25 * m},
 	"C18": {quick: 1500, thorough: 4000, shards: 16, quickTO: 4 * m, thorTO: 25 * m},
 	"C19": {quick: 1500, thorough: 60000, shards: 16, quickTO: 4 * m, thorTO: 25 * m},
